@@ -59,7 +59,7 @@ pub fn format_number(number: f64, thousands_separator: String, decimal_separator
     let mut trunc_dot_index = 3 - (trunc_size % 3);
     let mut trunc_formated = String::new();
 
-    if number < 0.0 {
+    if number.is_sign_negative() {
         trunc_formated.push('-');
     }
 
